@@ -96,6 +96,13 @@ def check(ctx, text, indents, origin, key=None):
         except RecursionError:
             ctx.count('skipped:resource_limit')
             continue
+        except Exception as e:
+            # the printer itself failed on a program the parser accepted: there is no output to read back
+            ctx.hit('pretty_print')
+            ctx.case((text, indent), nontrivial)
+            ctx.violation('C01:printer_raised:%s' % type(e).__name__, {'text': text, 'indent': indent, 'history': history},
+                          'pretty printing raised %s: %s\ninput: %r\nindent: %r' % (type(e).__name__, str(e)[:200], text[:300], indent))
+            break
         ctx.hit('pretty_print')
         ctx.hit('reparse')
         if o2 is not None:
